@@ -195,13 +195,14 @@ def run_check(pid, tier, seed):
         # replay: dedup by label+witness; cap per label
         seen = set()
         per_label = {}
-        for v in agg.viols:
+        confirmed_labels = set()
+        for v in sorted(agg.viols, key=lambda v: -v.get('prio', 0)):
             wj = json.dumps(to_json(v['w']), sort_keys=True)
             key = (v['label'], wj)
             if key in seen:
                 continue
             seen.add(key)
-            if per_label.get(v['label'], 0) >= 3:
+            if per_label.get(v['label'], 0) >= (3 if len(confirmed_labels & {v['label']}) else 8):
                 continue
             per_label[v['label']] = per_label.get(v['label'], 0) + 1
             h = hashlib.sha1((ob.name + wj).encode()).hexdigest()[:12]
@@ -226,6 +227,7 @@ def run_check(pid, tier, seed):
                     os.remove(path) if len(known_hits) > 50 else None
                 else:
                     violations.append((ob.name, v['label'], path, r))
+                confirmed_labels.add(v['label'])
             else:
                 nonrepro.append((ob.name, v['label'], path, r))
         rep['violations_found'] = len(agg.viols)
